@@ -209,7 +209,7 @@ class Taylor3D(object):
             upow[cls.pow2ind[0, 0, 0]] = 1.
             umagn = 0.
         else:
-            u0 = u.copy()
+            u0 = np.array(u, dtype=float)  # (a copy; integer-typed vectors are fine)
             if normalize: u0 /= umagn
             xyz = np.ones((cls.Lmax + 1, 3))
             for n in range(1, cls.Lmax + 1):
@@ -1280,7 +1280,7 @@ class Taylor2D(Taylor3D):
             upow[cls.pow2ind[0, 0]] = 1.
             umagn = 0.
         else:
-            u0 = u.copy()
+            u0 = np.array(u, dtype=float)  # (a copy; integer-typed vectors are fine)
             if normalize: u0 /= umagn
             xy = np.ones((cls.Lmax + 1, 2))
             for n in range(1, cls.Lmax + 1):
